@@ -7,7 +7,8 @@ number of open elements; (iii) comments only add comment tokens right after / be
 self-closing style only changes ` /` or `/` before `>`.
 """
 import re, itertools
-from emmet import expand
+from emmet import expand, markup_abbreviation, stringify_markup
+from emmet.config import Config
 from mc import explore
 from mc.lexers import lex_html
 from mc.ref import abbr_model as M
@@ -250,9 +251,29 @@ def classify_content(base, got, opts):
     return 'content:text-differs'
 
 
+def check_reuse(abbr, syntax):
+    "the same parsed tree formatted twice (also with comments on) gives the text expand() gives"
+    bad = []
+    for o in ({}, {'comment.enabled': True}):
+        try:
+            cfg = Config({'syntax': syntax, 'options': dict(o)})
+            t = markup_abbreviation(abbr, cfg)
+            first = stringify_markup(t, cfg)
+            second = stringify_markup(t, cfg)
+            ref = expand(abbr, {'syntax': syntax, 'options': dict(o)})
+        except Exception as e:
+            return [('exception-reformat:%s' % type(e).__name__, str(e)[:120])]
+        if not (first == second == ref):
+            bad.append(('formatter-consumes-the-tree', dict(abbr=abbr, syntax=syntax, options=o, first=first[:200], second=second[:200])))
+    return bad
+
+
 def check_style(seq, labels, syntax):
     abbr = M.render(seq, labels)
     outs = []
+    bad0 = check_reuse(abbr, syntax)
+    if bad0:
+        return abbr, bad0
     for st in ('html', 'xhtml', 'xml'):
         try:
             outs.append(re.sub(r' ?/>', '>', expand(abbr, {'syntax': syntax, 'options': {'output.selfClosingStyle': st}})))
